@@ -472,6 +472,17 @@ class Network(BaseModel):  # pylint: disable=too-many-public-methods
 
     def compile_endpoints(self):
         """Infer the endpoint type from the network."""
+        # The ports of the top module are named after the endpoint and the protocol
+        port_names = {}
+        for ep_desc in self.endpoints:
+            for prot_name in (ep_desc.mgr_port_protocol or []) + (ep_desc.sbr_port_protocol or []):
+                base_name = f"{ep_desc.name}_{prot_name}"
+                if base_name in port_names:
+                    raise ValueError(
+                        f"The ports of `{ep_desc.name}` with protocol `{prot_name}` clash "
+                        f"with those of `{port_names[base_name]}`, both are named `{base_name}`"
+                    )
+                port_names[base_name] = ep_desc.name
         for ep_name, ep in self.graph.get_ep_nodes(with_name=True):
             mgr_ports = []
             sbr_ports = []
